@@ -230,6 +230,10 @@ func (c06) Gen(r *world.Rng, tier string, n int) interface{} {
 	sc.Family = "history"
 	sc.Steps = r.Range(8, 40)
 	ne := r.Range(1, 4)
+	if strings.HasPrefix(tier, "thorough") && r.Chance(1, 3) {
+		sc.Steps = r.Range(40, 90)
+		ne = r.Range(3, 7)
+	}
 	for i := 0; i < ne; i++ {
 		ev := world.Event{Kind: world.EvINT, Data: mkData()}
 		if r.Chance(35, 100) {
@@ -299,12 +303,14 @@ func (c06) Exec(sci interface{}, env *Env) *Violation {
 
 		// twin without the request, for refusal Steps
 		var twin *z80.CPU
-		var twinBus *world.Bus
+		var twinBus *world.Overlay
 		mayRefuse := req != nil && req.Type != z80.NMIType
 		if mayRefuse {
-			twinBus = m.Bus.Clone()
+			// executed now, before the real Step changes memory (copy-on-write view)
+			twinBus = world.NewOverlay(m.Bus)
 			tc := &world.Counter{}
-			twin = &z80.CPU{States: before, Memory: twinBus.Memory(), IO: twinBus.IO(), RETNHandler: tc, RETIHandler: tc, HALT: cpu.HALT}
+			twin = &z80.CPU{States: before, Memory: twinBus, IO: twinBus, RETNHandler: tc, RETIHandler: tc, HALT: cpu.HALT}
+			twin.Step()
 		}
 
 		si := m.StepNoBoundary()
@@ -420,8 +426,6 @@ func (c06) Exec(sci interface{}, env *Env) *Violation {
 		// refusal (or executing the instruction after EI first): identical to
 		// the same Step without any request
 		if mayRefuse && !c.Consumed {
-			twinBus.ResetLog()
-			twin.Step()
 			if d := world.DiffStates(twin.States, cpu.States, false); d != "" {
 				return viol("refusal-changes-nothing", "Step with a refused request differs from the same Step without request:%s; %s", d, ctx())
 			}
